@@ -308,7 +308,7 @@ func c13GenHist(g *gen) {
 		// (2) the write lattice × {private buffer left alone, /mut, /scr, spare capacity} as FIRST and as LATER chunk, before
 		// Sum and before a second Write, on a fresh hasher and after Reset; Sum into the destination lattice; Sum twice
 		hists = nil
-		lens := []int{0, 1, nb - 1, nb, nb + 1, 63, 64, 65, 200}
+		lens := []int{0, 1, nb - 1, nb, nb + 1, 63, 64, 65, 200, 1024, 4096}
 		if g.thorough() {
 			lens = append(lens, 2, 31, 32, 33, 55, 56, 119, 120, 128, 1000, 4000)
 		}
